@@ -106,6 +106,37 @@ def random_seq(rng: Rng, n: int):
     return [rand_op(rng) for _ in range(n)]
 
 
+def _w(rng: Rng, p: str):
+    n = rng.randrange(1, 7)
+    return ("write", p, bytes(rng.randrange(256) for _ in range(n)).hex(), rng.randrange(0, 6))
+
+
+def history_seq(rng: Rng):
+    """structured histories: a file is written, then the path is given to another file (rename away and
+    create again, replaced, deleted and created again, its directory removed and made again), then written
+    and read again — what a path names must be looked up afresh by every operation; random operations are
+    sprinkled in between"""
+    a, b = rng.sample(["/a", "/b", "/d/x", "/d/y"], 2)
+    pre = [("mkdir", "/d")] if "/d" in a + b else []
+    mid = rng.choice([
+        [("rename", a, b), ("create", a)],
+        [("create", b), _w(rng, b), ("replace", b, a), ("create", a)],
+        [("create", b), _w(rng, b), ("replace", a, b)],
+        [("delete", a), ("create", a)],
+        [("rmdir", "/d", 1), ("mkdir", "/d"), ("create", a)] if a.startswith("/d/") else
+        [("rename", a, b), ("create", a), ("trunc", a)],
+        [("trunc", a)],
+    ])
+    seq = pre + [("create", a), _w(rng, a)] + mid + [_w(rng, a), ("read", a, 0, "-"), ("read", b, 0, "-"),
+                                                     _w(rng, b), ("read", a, 0, "-"), ("size", a)]
+    out = []
+    for op in seq:
+        out.append(op)
+        if rng.chance(0.25):
+            out.append(rand_op(rng))
+    return out
+
+
 def small_ops():
     """a small complete alphabet for exhaustive short sequences"""
     ops = []
